@@ -62,6 +62,7 @@ class PartProcessor(PartHandler, Maintainable):
                  value = 0,
                  resources_for_processing = None):
         self._is_shut_down = False
+        self._work_orders_in_progress = 0
 
         self._resources_for_processing = resources_for_processing
         self._reserved_resources = None
@@ -312,8 +313,14 @@ class PartProcessor(PartHandler, Maintainable):
         return 0
 
     def start_work(self, tag):
+        self._work_orders_in_progress += 1
         self.shutdown()
 
     def end_work(self, tag):
-        self.restore_functionality()
+        # Work orders of different Maintainers can overlap, restore
+        # only when the last one of them is done.
+        if self._work_orders_in_progress > 0:
+            self._work_orders_in_progress -= 1
+        if self._work_orders_in_progress == 0:
+            self.restore_functionality()
     # End of Maintainable function overrides.
